@@ -263,6 +263,146 @@ func collect(prefix string, v *vnode, out *[]vpath) {
 	}
 }
 
+// ---- mixed pattern lists: state that must be reset / kept per pattern ----
+// (the all: flag, the per-pattern have/pid bookkeeping, the per-directory file
+// count, the dirOK cache): lists in which an all: pattern precedes or follows a
+// plain pattern for a directory with hidden/underscore entries, the same
+// directory with and without all:, globs over siblings one of which has no
+// embeddable file, and two paths with the same base name in different parents.
+type dinfo struct {
+	p       string
+	hidden  bool // a . or _ entry somewhere below (through real directories)
+	noFiles bool // no file would be embedded without all: (empty, or only hidden / skipped entries)
+}
+
+func hiddenName(n string) bool { return n != "" && (n[0] == '.' || n[0] == '_') }
+
+// returns (has hidden entry below, number of plainly embeddable files below)
+func dirInfo(prefix string, v *vnode, out *[]dinfo) (bool, int) {
+	hid, cnt := false, 0
+	for _, e := range v.E {
+		p := e.N
+		if prefix != "" {
+			p = prefix + "/" + e.N
+		}
+		h := hiddenName(e.N)
+		if h {
+			hid = true
+		}
+		switch e.V.K {
+		case "d":
+			ch, cc := dirInfo(p, e.V, out)
+			if ch {
+				hid = true
+			}
+			if !h {
+				cnt += cc
+			}
+		case "f":
+			if !h {
+				cnt++
+			}
+		}
+	}
+	if prefix != "" {
+		*out = append(*out, dinfo{prefix, hid, cnt == 0})
+	}
+	return hid, cnt
+}
+
+func globParent(p string) string {
+	if j := strings.LastIndexByte(p, '/'); j >= 0 {
+		return p[:j+1] + "*"
+	}
+	return "*"
+}
+
+func (g *gen) mixed(tree *vnode, paths []vpath) []string {
+	var dirs []dinfo
+	dirInfo("", tree, &dirs)
+	if len(dirs) == 0 || len(paths) == 0 {
+		return nil
+	}
+	r := g.r
+	var hid, empt []dinfo
+	for _, d := range dirs {
+		if d.hidden {
+			hid = append(hid, d)
+		}
+		if d.noFiles {
+			empt = append(empt, d)
+		}
+	}
+	pickDir := func() string {
+		if len(hid) > 0 && r.n(4) > 0 {
+			return hid[r.n(len(hid))].p
+		}
+		return dirs[r.n(len(dirs))].p
+	}
+	anyPath := func() string { return paths[r.n(len(paths))].p }
+	d := pickDir()
+	form := r.n(14)
+	if form >= 12 {
+		form = 8
+	}
+	g.classes[fmt.Sprintf("mixed:%02d", form)]++
+	switch form {
+	case 0:
+		return []string{"all:" + anyPath(), d}
+	case 1:
+		return []string{d, "all:" + d}
+	case 2:
+		return []string{"all:" + d, d}
+	case 3:
+		return []string{"all:" + mutate(r, d), d}
+	case 4:
+		return []string{"all:" + d, globParent(d)}
+	case 5:
+		return []string{d, "all:" + anyPath(), pickDir()}
+	case 6:
+		if len(empt) > 0 {
+			e := empt[r.n(len(empt))].p
+			if r.n(2) == 0 {
+				return []string{"all:" + globParent(e)}
+			}
+			return []string{globParent(e)}
+		}
+		return []string{globParent(d)}
+	case 7:
+		if len(empt) > 0 {
+			return []string{d, globParent(empt[r.n(len(empt))].p)}
+		}
+		return []string{d, globParent(d)}
+	case 8:
+		// two paths with the same base name in different parents
+		byBase := map[string][]string{}
+		for _, vp := range paths {
+			b := vp.p[strings.LastIndexByte(vp.p, '/')+1:]
+			byBase[b] = append(byBase[b], vp.p)
+		}
+		var keys []string
+		for b, ps := range byBase {
+			if len(ps) > 1 {
+				keys = append(keys, b)
+			}
+		}
+		sort.Strings(keys)
+		if len(keys) > 0 {
+			ps := byBase[keys[r.n(len(keys))]]
+			a := r.n(len(ps))
+			b := (a + 1 + r.n(len(ps)-1)) % len(ps)
+			return []string{ps[a], ps[b]}
+		}
+		return []string{d, anyPath()}
+	case 9:
+		return []string{"all:" + anyPath(), anyPath(), d}
+	case 10:
+		return []string{"all:" + globParent(d), d, globParent(d)}
+	default:
+		return []string{d, d, "all:" + d}
+	}
+}
+
 var rawPatterns = []string{"", ".", "..", "a/../b", "/a", "a/", "a//b", "./a", "[", "[]", "[]a]", "[a-]", "[a", "[^", "[^]", "a\\", "*[", "\\", "[\\]", "[a-\\]",
 	"**", "*", "*/*", "*/*/*", "?", "??", "???", "*?", "*??", "?*", "*.txt", "a*", "*a*", "[a-b]", "[a-b]*", "[^a]*", "[^.]*", "[^._]*", "[.]*", "[_]*", ".*", "_*",
 	"\\a", "\\a.txt", "\\*", "a\\*b", "[a\\]b]", "[]-a]", "[*]", "a[*]b", "a[?]b", "*/a", "*/a.txt", "sub/*", "*/go.mod", "go.mod", "*.mod",
@@ -666,6 +806,11 @@ func TestVerif(t *testing.T) {
 		var paths []vpath
 		collect("", tree, &paths)
 		pats := g.patterns(paths)
+		if i%5 == 1 || i%5 == 3 {
+			if mp := g.mixed(tree, paths); mp != nil {
+				pats = mp
+			}
+		}
 		if i < 0 {
 			pats = []string{"l/f.txt"}
 		}
